@@ -32,6 +32,10 @@ theorem inv_rAcq (h : Inv c s) (hpc : s.rpc = .acq) (hsem : 0 < s.sem) :
     · rfl
     · have := done_not_early h hd
       simp [hpc, RPc.early] at this
+  have hnf : ¬ (s.done = true ∨ (c.term = .error ∧ c.src.length ∈ s.got)) := by
+    intro hf
+    have := fin_not_early h hf
+    simp [hpc, RPc.early] at this
   constructor <;> (try (dsimp only; same h))
   case rEarly => fr [hpc] h.rEarly
   case rApp => simp
@@ -41,8 +45,9 @@ theorem inv_rAcq (h : Inv c s) (hpc : s.rpc = .acq) (hsem : 0 < s.sem) :
   case permits => have := h.permits; simp only [held, pending, hpc, RPc.holds, RPc.inCall] at this ⊢; omega
   case fin =>
     intro hp
-    have := (h.fin hp).1
-    simp [hnd] at this
+    rcases h.fin hp with hd | hd
+    · exact Or.inl hd
+    · exact absurd hd.2 hnf
   case getNotFin => simp [hnd]
   case storeSound => fr [hpc] h.storeSound
   case storeComplete => fr [hpc] h.storeComplete
@@ -160,7 +165,7 @@ theorem inv_rAppend (h : Inv c s) (v i : Nat) (hpc : s.rpc = .app v i) :
       simp [this]
 
 theorem inv_rPut (h : Inv c s) (m : Msg) (hpc : s.rpc = .put m) :
-    Inv c { s with inq := s.inq ++ [m], rpc := match m.pay with | .item _ => .top | _ => .exited } := by
+    Inv c { s with inq := s.inq ++ [m], rpc := match m.pay with | .item _ => .top | _ => .ret } := by
   obtain ⟨hi, hp⟩ := h.rPut m hpc
   have hple := h.pulledLe
   constructor <;> (try (dsimp only; same h))
@@ -222,6 +227,17 @@ theorem inv_rPut (h : Inv c s) (m : Msg) (hpc : s.rpc = .put m) :
   case storeSound => cases m.pay <;> fr [hpc] h.storeSound
   case storeComplete => cases m.pay <;> fr [hpc] h.storeComplete
 
+theorem inv_rRet (h : Inv c s) (hpc : s.rpc = .ret) : Inv c { s with rpc := .exited } := by
+  constructor <;> (try (dsimp only; same h))
+  case rEarly => simp [RPc.early]
+  case rApp => simp
+  case rPut => simp
+  case rExit => intro _; exact h.rExit (Or.inr hpc)
+  case cnt => fr [hpc] h.cnt
+  case permits => fr [hpc] h.permits
+  case storeSound => fr [hpc] h.storeSound
+  case storeComplete => fr [hpc] h.storeComplete
+
 theorem inv_stepR (h : Inv c s) {a : Action} (hs : stepR c s a = some s') : Inv c s' := by
   cases a <;> try (simp [stepR] at hs; done)
   case rInit => obtain ⟨h1, rfl⟩ := spec_rInit.mp hs; exact inv_rInit h h1
@@ -245,5 +261,6 @@ theorem inv_stepR (h : Inv c s) {a : Action} (hs : stepR c s a = some s') : Inv 
         exact inv_rLeave_app h h1 v hv hd
   case rAppend => obtain ⟨v, i, h1, rfl⟩ := spec_rAppend.mp hs; exact inv_rAppend h v i h1
   case rPut => obtain ⟨m, h1, rfl⟩ := spec_rPut.mp hs; exact inv_rPut h m h1
+  case rRet => obtain ⟨h1, rfl⟩ := spec_rRet.mp hs; exact inv_rRet h h1
 
 end TDV.PM
